@@ -76,3 +76,26 @@ package controller
 //@   calls Handler.saltAuthToken#1: requires $0 == req && $1 == remoteID
 //@   calls Handler.saltAuthToken#1: set sreq = $r0
 //@   calls proxy.Do#1: requires $0 == sreq && $1.RawQuery == sreq.URL.RawQuery && $1.Path == sreq.URL.Path && $1.RawPath == sreq.URL.RawPath
+
+// validateAPItoken: "not found" (nil error, ok == false) is reported only when
+// the lookup really found nothing (sql.ErrNoRows) or the uuid part does not
+// match; any other database fault is returned as an error - saltAuthToken
+// treats "not found" as "issued by the remote" and forwards the token as it is,
+// so a fault must never look like "not found".
+//@ func Handler.validateAPItoken property C19 safety -bounds,-nil
+//@   ghost serr error = nil
+//@   ghost scanned bool = false
+//@   calls Row.Scan#1: set serr = $r
+//@   calls Row.Scan#1: set scanned = true
+//@   ensures scanned && serr != nil && serr != sql.ErrNoRows ==> result2 != nil
+//@   ensures result1 ==> result0 != nil && result2 == nil && scanned && serr == nil
+
+// fetchRemoteCollectionByPDH (legacy path): each per-remote goroutine asks the
+// remote it was started for and has the answer checked and relabelled for that
+// same remote and for the requested hash (the goroutine's own parameter - not
+// the loop variable, which all goroutines share).
+//@ func fetchRemoteCollectionByPDH property C18 safety -bounds,-nil
+//@   calls fetchRemoteCollectionByPDH$1#1: requires $0 == remoteID && remoteID != "*"
+//@ func fetchRemoteCollectionByPDH$1 property C18 safety -bounds,-nil
+//@   calls Handler.remoteClusterRequest#1: requires $0 == remote && $1 == req
+//@   calls rewriteSignatures#1: requires $0 == remote && $1 == pdh && $2 == resp
